@@ -5,8 +5,8 @@ from harness.chandrv import ChanDriver
 class Driver(ChanDriver):
     PID = 'C05'
     PROP = 'c05_ok'
-    PROFILES = [('rpc', 150, 2000), ('errors', 40, 400)]
-    RULE = ("scenarios from the profiles ['rpc', 'errors'] of harness/changen.py: sequences of "
+    PROFILES = [('rpc', 150, 2000), ('errors', 40, 400), ('get', 60, 600)]
+    RULE = ("scenarios from the profiles ['rpc', 'errors', 'get'] of harness/changen.py: sequences of "
             'application operations on 1-3 channels, each with a script of '
             'inbound frame batches (replies, deliveries, returns, cancels, '
             'channel/connection closes, silence) delivered one batch per '
